@@ -11,7 +11,9 @@ struct Recorder {
 }
 
 fn copy_params(p: &anstyle_parse::Params) -> Vec<Vec<u16>> {
-    p.iter().map(|g| g.to_vec()).collect()
+    // bounded: a parameter iterator that never ends must not exhaust the monitor's memory (at most 32 values exist, so
+    // 200 items already differ from every expectation)
+    p.iter().take(200).map(|g| g.to_vec()).collect()
 }
 
 impl anstyle_parse::Perform for Recorder {
